@@ -4,6 +4,8 @@ package modbus
 
 import (
 	"errors"
+
+	"github.com/aldas/go-modbus-client/packet"
 )
 
 // C08 — a request call always terminates with a classified error on transport faults.
@@ -134,5 +136,35 @@ func VH_C08_precondition() {
 		resp, err := c.do(x.req)
 		vndAssert(resp == nil && err != nil && errors.Is(err, c.ctx.Err()), "a context cancelled before the call is reported as the context's error")
 		vndAssert(len(s.reads) == 0, "no read happens under a cancelled context")
+	}
+}
+
+// VH_C08_sequence: what one call leaves behind in the client must not break the next one: after a call that ended in
+// a read timeout (or another fault), a further call on the same client with a healthy transport terminates and
+// returns the reply.
+func VH_C08_sequence() {
+	mode := vndParam("mode")
+	fault := vndParam("fault")
+	a := vhMakeExchange(2, mode, 1, false)
+	b := vhMakeExchange(5, mode, 1, false)
+	s := &vhScript{reply: a.reply, fault: fault}
+	c := vhNewClient(mode, s, false)
+	var err1 error
+	ret1 := vndWatchdog(func() { _, err1 = c.do(a.req) })
+	vndAssert(ret1, "the faulted call returns")
+	vndAssert(err1 != nil, "the faulted call reports an error")
+	// the transport is healthy again and answers the next request in one read
+	s.reply, s.fault = b.reply, vhFaultNone
+	s.cuts, s.pauses, s.paused, s.withErr = []int{len(b.reply)}, []bool{false}, []bool{false}, []bool{false}
+	s.next, s.pos, s.extraReads = 0, 0, 0
+	c.ctx = vhNewCtx() // the next caller brings its own, live context
+	s.ctx = c.ctx
+	var resp2 packet.Response
+	var err2 error
+	ret2 := vndWatchdog(func() { resp2, err2 = c.do(b.req) })
+	vndCover("second-call")
+	vndAssert(ret2, "a call after a faulted call terminates")
+	if ret2 {
+		vndAssert(err2 == nil && resp2 != nil && vhEqualBytes(resp2.Bytes(), b.reply), "a call after a faulted call returns the reply to its request")
 	}
 }
